@@ -96,7 +96,10 @@ def gen(ctx, name, bounds, fix, seen):
         scs.append({"id": "C18/%s/%d" % (name, k), "kind": "reconnect", "wdMs": 2000,
                     "p": {"budget": p["Budget"], "dials": [o["mode"] for o in ops if o["a"] == "dial"],
                           "tid": ("" if k % 2 else "verif-c18-%d" % k),
-                          "model": "fix" if fix else "coded", "stuck": seqs[q]},
+                          "model": "fix" if fix else "coded", "stuck": seqs[q],
+                          # redials the model does not perform: fail, or (every other Close scenario) succeed -- a transport that
+                          # keeps redialling after Close then stays alive and its callers hang
+                          "after": "ok" if (k // 2) % 2 == 0 and any(o["a"] == "close" for o in ops) else "fail"},
                     "steps": steps})
     log("[C18] family %s: %d printed, %d new maximal environment scripts" % (name, len(r.printed), len(scs)))
     return scs
@@ -127,6 +130,7 @@ def selftest_traces():
         "pingleak": ([d1, ur(1, "ping", 0), uw(1, 0, True), {"ev": "RCall"}, rr("ping", 0)], ["PingLeaked"]),
         "pongmissing": ([d1, ur(1, "ping", 0)], ["PongMissing"]),
         "pongspurious": ([d1, uw(1, 0, True)], ["PongSpurious"]),
+        "okafterclose": ([d1, {"ev": "CloseCall"}, {"ev": "Closed"}, wc(1, 1), ud(2, True, 1, "ok"), uw(2, 1, True), wr(1, 1, True)], ["WriteOkAfterClose"]),
         "readmismatch": ([d1, ur(1, "msg", 1), ur(1, "msg", 2), {"ev": "RCall"}, rr("msg", 2)], ["ReadMismatch"]),
         "blockbudget": ([d1, wc(1, 1), uw(1, 1, False), ud(2, True, 1, "fail"), ud(3, True, 1, "hsfail"), wr(1, 1, False), wc(2, 2), wd("write", 2)], ["BlockedAfterBudget"]),
         "blockclose": ([d1, {"ev": "CloseCall"}, {"ev": "Closed"}, {"ev": "RCall"}, wd("read", 0)], ["BlockedAfterClose"]),
@@ -148,7 +152,7 @@ def run():
         "underlying transports are scripted fakes: a Write/Read on a closed fake fails by itself (like a closed socket), every other "
         "underlying Write/Read outcome is decided by the script; a failed underlying Write means 'not accepted'",
         "redial outcomes come from a per-scenario list in the order the library dials (reconnect() runs under the transport mutex); "
-        "beyond the list every redial fails",
+        "beyond the list every redial fails, except in every other scenario containing Close, where it succeeds",
         "the only timing interpreted is the watchdog: a driver-level Read/Write/Close not returned 2 s after the end of the script "
         "(reconnect interval 1 ms x budget 2-3)",
         "Close racing with an in-flight request (select on ctx.Done vs channel) is abstracted: after cancel the model lets the idle write loop exit",
@@ -202,7 +206,10 @@ def run():
             raise Inconclusive("monitor self-test %s: expected %s, got %s" % (sc, exp, got))
         verdicts.pop(sc, None)
     log("[C18] monitor self-test: %d synthetic histories judged as expected" % len(st_expect))
-    ctx.judge(scs, trace, verdicts)
+    # clauses that presuppose a completely executed script are not trusted in a run with skipped ops
+    # (a skipped `ur msg` leaves a Read legitimately pending); all other clauses are sound on any history
+    nskip = lambda sc: ((verdicts.get(sc) or {}).get("stats") or {}).get("skips", 0)
+    ctx.judge(scs, trace, verdicts, clause_filter=lambda sc, b: not (b in ("BlockedOther", "PongMissing") and nskip(sc) > 0))
     # fidelity diagnostic (never a verdict): which Writes hang, as predicted by each model vs observed
     by, _ = ctx.load_trace(trace)
     agree = {"coded": [0, 0], "fix": [0, 0]}
@@ -222,7 +229,7 @@ def run():
         byclause or "none", skips, len(diverged)))
     if diverged:
         ctx.notes.append("scenarios with skipped ops: %s" % diverged[:5])
-    if len(diverged) > max(3, len(scs) // 10):
+    if not ctx.violations and len(diverged) > max(3, len(scs) // 10):
         raise Inconclusive("%d of %d scenarios diverged from their script (skipped ops)" % (len(diverged), len(scs)))
     ctx.finish(rule="scenarios = maximal environment scripts (Write calls of 2 writers, underlying write ok/fail, underlying read msg/ping/err, "
                     "dial ok/fail/handshake-fail, Read, Close) of the as-coded generator configurations of ReconnectTransport.tla, replayed on "
@@ -231,7 +238,7 @@ def run():
                extra_cov={"scripts_generated": total, "skipped_ops": skips, "violations_by_clause": byclause,
                           "model_predicts_defect": predicted,
                           "hung_writes_agreement": {"as_coded_model": agree["coded"], "fixed_model": agree["fix"]}},
-               exhaustive=not quick)
+               exhaustive=False)   # L1 is exhaustive within its bounds; the replayed scripts are a sample of all generated ones
 
 
 if __name__ == "__main__":
